@@ -3,6 +3,7 @@ import argparse
 import importlib
 import json
 import os
+import re
 import sys
 import traceback
 
@@ -21,8 +22,14 @@ def main():
         ok, log = common.coq_build()
         mods = " ".join("CK." + l.strip()[:-2].replace("/", ".") for l in open(os.path.join(common.COQ, "_CoqProject")) if l.strip().endswith(".v"))
         rc, out = common.sh(f"timeout 3000 coqchk -o -silent -Q {common.COQ} CK {mods}", timeout=3100)
-        print(out[-1500:])
-        sys.exit(0 if rc == 0 and "* Axioms: <none>" in out else 1)
+        print(out[-2500:])
+        m = re.search(r"\* Axioms:(.*?)\n\s*\n\* Constants", out, re.S)
+        names = [l.strip() for l in (m.group(1) if m else "?").splitlines() if l.strip() and l.strip() != "<none>"]
+        short = lambda n: ".".join(n.split(".")[-2:])
+        bad = [n for n in names if short(n) not in common.ALLOWED_AXIOMS]
+        clean = all(f"{k}: <none>" in out for k in ("type-in-type", "unsafe (co)fixpoints", "positivity is assumed"))
+        print("coqchk axioms:", names or "none", "| not allow-listed:", bad or "none", "| kernel checks untouched:", clean)
+        sys.exit(0 if rc == 0 and m and not bad and clean else 1)
     if a.pid == "selftest":
         import selftest
         sys.exit(selftest.main())
